@@ -208,6 +208,11 @@ TypeOK == /\ \A e \in pool : e.tx \in TxU /\ e.vh \in H0..Height
           /\ vnext \in (H0 + 1)..(Height + 1) /\ pnext \in (H0 + 1)..(Height + 1)
           /\ vlen <= MaxBlocks /\ (vlen > 0 => vbase > H0 /\ vbase + vlen <= Height + 1)
 
+\* the validator window always ends with the newest block delivered to it, however often it has slid: Verify's
+\* nonce cache (WinNonce) and duplicate check therefore cover the newest block (histories longer than MaxBlocks
+\* exercise the sliding: configurations with MaxHeight - H0 > MaxBlocks)
+WindowNewest == vlen > 0 => vbase + vlen = vnext
+
 \* the two indexes of the pool agree: at most one entry per transaction and per (sender, nonce)
 PoolOK == /\ \A e1, e2 \in pool : e1.tx = e2.tx => e1 = e2
           /\ \A e1, e2 \in pool : IsEvm(e1.tx) /\ IsEvm(e2.tx) /\ e1.tx.s = e2.tx.s /\ e1.tx.n = e2.tx.n => e1 = e2
